@@ -65,21 +65,25 @@ TraceInit == tid \in 1..NT /\ i = 1 /\ Init
 \*                                  has no offset and errors.getText compares None                (Parse)
 \*   non-utf8-file-unicodedecodeerror  a source file that is not UTF-8: UnicodeDecodeError of
 \*                                  stream.read().decode in compileStream                        (Preamble)
+\*   return-scenic-in-interrupt-typeerror  `return 5 deg` in the body or a handler of a try-interrupt:
+\*                                  the value is not compiled, compile() gets a Scenic node      (PyCompile)
+\*   long-chain-compile-recursionerror  a chain of ~3000 binary operators: RecursionError in the
+\*                                  compiler's tree walk / compile()                          (Compile, PyCompile)
 KnownCrashStage ==
-  [k \in {"nul-byte-file-typeerror", "non-utf8-file-unicodedecodeerror",
+  [k \in {"return-scenic-in-interrupt-typeerror", "nul-byte-file-typeerror", "non-utf8-file-unicodedecodeerror",
           "fstring-conversion-crash", "invalid-target-scenic-expr", "error-span-lines-keyerror",
           "number-literal-raw-syntaxerror", "nul-byte-systemerror", "behavior-annassign-crash",
           "require-prob-not-float", "nested-brackets-recursionerror", "legacy-instance-error-attributeerror",
           "temporal-in-ifexp-assertion", "require-monitor-as-typeerror", "try-interrupt-else-valueerror",
           "empty-target-elts-none"} |->
-     IF k \in {"behavior-annassign-crash", "require-monitor-as-typeerror", "try-interrupt-else-valueerror", "empty-target-elts-none"}
+     IF k \in {"return-scenic-in-interrupt-typeerror", "behavior-annassign-crash", "require-monitor-as-typeerror", "try-interrupt-else-valueerror", "empty-target-elts-none"}
      THEN "PyCompile" ELSE IF k = "temporal-in-ifexp-assertion" THEN "Compile"
      ELSE IF k = "non-utf8-file-unicodedecodeerror" THEN "Preamble" ELSE "Parse"]
-KnownKeys == DOMAIN KnownCrashStage
+KnownKeys == DOMAIN KnownCrashStage \cup {"long-chain-compile-recursionerror"}
 CrashAsImplemented(st) ==
   /\ ~Idle /\ ~Failing /\ Top.stage = st
-  /\ \E k \in Devs \cap KnownKeys :
-        /\ KnownCrashStage[k] = st
+  /\ \E k \in Devs \cap (KnownKeys \cup {"long-chain-compile-recursionerror"}) :
+        /\ (IF k = "long-chain-compile-recursionerror" THEN st \in {"Compile", "PyCompile"} ELSE KnownCrashStage[k] = st)
         /\ pending' = <<[kind |-> k, stage |-> st, line |-> 0, n |-> Top.n]>>
   /\ UNCHANGED <<frames, veneer, pathPushed, newMods, outcome, opts, runs>>
 
